@@ -204,7 +204,10 @@ func zzPutUvarint(b []byte, v uint64) []byte {
 	}
 	return append(b, byte(v))
 }
-func zzPutVarint(b []byte, v int64) []byte { return zzPutUvarint(b, uint64(v<<1)^uint64(v>>63)) }
+func zzPutVarint(b []byte, v int64) []byte {
+	zzvHintInt(v)
+	return zzPutUvarint(b, uint64(v<<1)^uint64(v>>63))
+}
 func zzPutVarfloat(b []byte, v float64) []byte {
 	x := math.Float64bits(v+1) - math.Float64bits(1)
 	x = x<<6 | x>>58
